@@ -1,4 +1,5 @@
 import OnlVerif.Lemmas.ResStep
+import OnlVerif.Lemmas.ConserveExamples
 /-!
 # C06 — resources never exceed capacity, grant in queue order, never idle a slot
 
@@ -93,5 +94,88 @@ example : ResInv ({ now := 0, resources := #[{ kind := .resource, capacity := so
   · have : (#[({ kind := .resource, capacity := some 1 } : ResRec)].getD r default) = default := by
       simp [Array.getD, show ¬ r < 1 by omega]
     rw [this]; simp [default]
+
+/-! ## ===== b-conserve: global queue-order theorems (whole runs, every program) — BEGIN =====
+
+Vocabulary (`Lemmas/Conserve*.lean`).  A request event is *granted* exactly when it is triggered (`out ≠ none`).
+`WF s0`: the initial state is well-formed (`WF.init`: every fresh environment is).  `SafeReach body fuel s s'`: `s'` is
+reachable from `s` by kernel steps of program `body` during which no `succeed`/`fail` call of the program targets a
+request event (outside the domain: the real `_do_put` then raises "already triggered"); every run of a program that never
+calls `succeed`/`fail` qualifies (`safeReach_of_noTrig`).  `Before l a b`: `a` stands before `b` in the list `l`.
+`rankLt s prio a b`: `a` ranks strictly before `b` — creation order (event ids) for `Resource`; for the two priority
+classes (`prio = true`) the key `(priority, request time, preempting-first)` compared as Python compares the tuple,
+then creation order.  `AUnit t t'`: one atomic unit of the model (bookkeeping, a fresh event, an outcome written to a
+non-request event, `grantPut`, `grantGet`, `newPut`, `newGet`, `cancelPut`, `cancelGet`), each with the guard under which
+the model executes it; `UnitSeq`: finite sequences of units. -/
+
+/-- **The request queue is always sorted by rank** — arrival order for `Resource`; (priority, request time,
+preempting-first, arrival) for `PriorityResource` and `PreemptiveResource` — **and holds only waiting (untriggered)
+requests of this resource, each once**, in every state any program can reach. -/
+theorem queue_sorted_by_rank (body : σ → Resume → Burst ℚ σ) (fuel : Nat) (s0 s : KState ℚ σ)
+    (hW : WF s0) (hS : QSorted s0) (hr : SafeReach body fuel s0 s) (r : ResId) :
+    (s.res r).putQ.Pairwise (rankLt s (isPrioKind (s.res r).kind)) ∧ (s.res r).putQ.Nodup ∧
+    ∀ e ∈ (s.res r).putQ, (s.ev e).kind = .put r ∧ (s.ev e).out = none :=
+  have hWs := (reach_base body fuel s0 s hW hr).2
+  ⟨((reach_queue body fuel s0 s hW hr).2 hS).put r, hWs.putNodup r, hWs.putQ r⟩
+
+/-- **Requests are granted in queue order, along whole runs**: if `a` stands before `b` in the queue in some reachable
+state `s`, then in every later state `s'` in which `b` has been granted, `a` has been granted too — or was cancelled
+(it left the queue without being granted; it then is never granted). -/
+theorem granted_in_queue_order (body : σ → Resume → Burst ℚ σ) (fuel : Nat) (s0 s s' : KState ℚ σ)
+    (hW : WF s0) (hr0 : SafeReach body fuel s0 s) (hr : SafeReach body fuel s s') (r : ResId) (a b : EvId)
+    (hab : Before (s.res r).putQ a b) (hb : (s'.ev b).out ≠ none) :
+    (s'.ev a).out ≠ none ∨ (a ∉ (s'.res r).putQ ∧ (s'.ev a).out = none) :=
+  have hWs := (reach_base body fuel s0 s hW hr0).2
+  ((reach_queue body fuel s s' hWs hr).1.put r).order trivial a b hab hb
+
+/-- **A later-ranked request is never granted ahead of an earlier-ranked waiting one**: for two waiting requests with
+`a` ranked strictly before `b` (rank as in `queue_sorted_by_rank`), whenever `b` has been granted later on, `a` has been
+granted as well, unless it was cancelled. -/
+theorem never_granted_ahead_of_earlier_ranked (body : σ → Resume → Burst ℚ σ) (fuel : Nat) (s0 s s' : KState ℚ σ)
+    (hW : WF s0) (hS : QSorted s0) (hr0 : SafeReach body fuel s0 s) (hr : SafeReach body fuel s s') (r : ResId) (a b : EvId)
+    (ha : a ∈ (s.res r).putQ) (hbq : b ∈ (s.res r).putQ) (hrank : rankLt s (isPrioKind (s.res r).kind) a b)
+    (hb : (s'.ev b).out ≠ none) :
+    (s'.ev a).out ≠ none ∨ (a ∉ (s'.res r).putQ ∧ (s'.ev a).out = none) := by
+  have hsorted := ((reach_queue body fuel s0 s hW hr0).2 hS).put r
+  have hab : Before (s.res r).putQ a b := before_of_rel (fun _ _ h => rankLt_asymm h) hsorted ha hbq hrank
+  exact granted_in_queue_order body fuel s0 s s' hW hr0 hr r a b hab hb
+
+/-- **Waiting requests keep their relative order, and a cancelled request never comes back**: the other two clauses of
+the order relation between any two states of a run. -/
+theorem queue_order_is_stable (body : σ → Resume → Burst ℚ σ) (fuel : Nat) (s0 s s' : KState ℚ σ)
+    (hW : WF s0) (hr0 : SafeReach body fuel s0 s) (hr : SafeReach body fuel s s') (r : ResId) :
+    (∀ a b, Before (s.res r).putQ a b → a ∈ (s'.res r).putQ → b ∈ (s'.res r).putQ → Before (s'.res r).putQ a b) ∧
+    (∀ a, (s.ev a).kind = .put r → a ∉ (s.res r).putQ → (s.ev a).out = none →
+      a ∉ (s'.res r).putQ ∧ (s'.ev a).out = none) :=
+  have hWs := (reach_base body fuel s0 s hW hr0).2
+  have h := (reach_queue body fuel s s' hWs hr).1.put r
+  ⟨h.keep, h.dead⟩
+
+/-- **Every run is a finite sequence of atomic units** (so statements about "the moment of a grant" make sense). -/
+theorem run_is_unit_sequence (body : σ → Resume → Burst ℚ σ) (fuel : Nat) (s0 s : KState ℚ σ)
+    (hW : WF s0) (hr : SafeReach body fuel s0 s) : UnitSeq s0 s :=
+  reach_units body fuel s0 s hW hr
+
+/-- **Requests are granted one by one, each while it is the first of the queue**: the only atomic unit that triggers a
+waiting request `e` of resource `r` is `_do_put` on `e`, executed while `e` is the head of the queue and a slot is free
+(`canPut`, evaluated after the eviction step of a `PreemptiveResource`). -/
+theorem request_granted_only_at_head (t t' : KState ℚ σ) (h : AUnit t t') (r : ResId) (e : EvId)
+    (hk : (t.ev e).kind = .put r) (ho : (t.ev e).out = none) (ho' : (t'.ev e).out ≠ none) :
+    ∃ rest, (t.res r).putQ = e :: rest ∧ canPut t r e = true ∧ t' = grantPutSt t r e :=
+  h.grant_put hk ho ho'
+
+/-! non-vacuity: `PriorityResource(capacity=1)`; requests with priorities 2 (granted at once), 1, 0, 1, then release of
+the first.  The queue is `[prio 0, prio 1 (older), prio 1 (newer)]` = events `[4, 3, 5]`; two kernel steps later the
+release has been processed and the priority-0 request (event 4, created after event 3) has been granted first. -/
+example : WF ExPrio.s0 ∧ QSorted ExPrio.s0 ∧ SafeReach ExPrio.body 5 ExPrio.s0 ExPrio.s1 ∧
+    SafeReach ExPrio.body 5 ExPrio.s1 ExPrio.s3 :=
+  ⟨ExPrio.wf0, ExPrio.sorted0, ExPrio.reach1, ExPrio.reach13⟩
+example : (ExPrio.s1.res 0).putQ = [4, 3, 5] ∧ (ExPrio.s3.res 0).putQ = [3, 5] ∧ (ExPrio.s3.res 0).users = [4] ∧
+    ExPrio.s3.triggered 4 = true ∧ ExPrio.s3.triggered 3 = false := by decide +kernel
+example : Before [4, 3, 5] 4 3 := by unfold Before; decide
+example : rankLt ExPrio.s1 true 4 3 := by
+  unfold rankLt; simp only [if_true]; left; decide +kernel
+
+/-! ## ===== b-conserve — END ===== -/
 
 end C06
